@@ -14,6 +14,8 @@ struct ReqFam {
   static SK make(int cfg) { return SK(static_cast<uint16_t>(cfg % 1000), cfg >= 1000); }
   static std::string cfg_text(int cfg) { return "k=" + std::to_string(cfg % 1000) + (cfg >= 1000 ? " HRA" : " LRA"); }
   static bool allow_rt() { return true; }
+  static int len_quantum(int cfg) { (void)cfg; return 0; }
+  static int chunk_quantum(int cfg) { (void)cfg; return 0; }
   static bool has_exact_region() { return true; }
   // the sketch publishes zero error at this rank (within 3k/n of the accurate end, or not in estimation mode)
   static bool exact_claim(const SK& s, double true_rank) { return s.get_rank_lower_bound(true_rank, 3) == s.get_rank_upper_bound(true_rank, 3); }
@@ -49,7 +51,7 @@ static void sampled_cell_req(const c08::Cell& c, Rng& r) {
   // k=4 (the minimum) has its own key class: there the number of sections can never grow (section size cannot shrink
   // below MIN_K), so the error outgrows the n-independent published bounds -- a different defect than a bound failure at k >= 6
   const std::string kp = (c.cfg % 1000) == 4 ? std::string("req|sampled|min-k-4|")
-                                             : std::string("req|sampled|") + (hra ? "hra|" : "lra|") + (c.merge == 0 ? "single-stream" : "merge-4way") + "|";
+                                             : std::string("req|sampled|") + (hra ? "hra|" : "lra|") + (c.merge == 0 ? "single-stream" : (c.merge == 3 ? "merge-into-fresh-then-stream" : "merge-4way")) + "|";
   c08::Truth t = c08::make_truth(c, r);
   // query points: 60 log-spaced towards the accurate end, 40 uniform
   std::vector<size_t> qs;
@@ -78,6 +80,7 @@ static void sampled_cell_req(const c08::Cell& c, Rng& r) {
     std::unique_ptr<SK> sk = c08::feed<ReqFam>(c, stream);
     VF_CHECK(sk->get_n() == c.n, kp + "n-not-true-n", ctx + " get_n=" + std::to_string(sk->get_n()));
     { std::string why; const bool vok = c08::sorted_view_consistent(*sk, c.n, why); VF_CHECK(vok, kp + "sorted-view-not-sorted", ctx + " trial=" + std::to_string(trial) + " " + why); }
+    { std::string why; const bool qok = c08::queries_match_fresh_view(*sk, why); VF_CHECK(qok, kp + "query-answer-differs-from-current-sorted-view", ctx + " trial=" + std::to_string(trial) + " " + why); }
     uint64_t ok = 0, tot = 0, nok = 0, ntot = 0;
     for (size_t q : qs) {
       for (int incl = 0; incl < 2; ++incl) {
@@ -131,11 +134,12 @@ static void sampled_cell_req(const c08::Cell& c, Rng& r) {
   if (near_pairs) VF_CHECK(frac_near.mean >= thr_near, kp + "true-rank-outside-3sd-bounds-too-often-near-accurate-end", res);
   std::vector<double> floors(zq.size());
   for (size_t i = 0; i < zq.size(); ++i) floors[i] = floor_hw[i] / 2;
-  c08::mean_rank_test(kp, ctx, t, zq, zacc, floors, 6.5);
+  c08::mean_rank_test(kp, ctx, t, zq, zacc, floors, c.trials < 50 ? 12.0 : 6.5);   // few trials: Student tails
   count("req_smp_cells");
   count(hra ? "req_smp_cells_hra" : "req_smp_cells_lra");
   if ((c.cfg % 1000) == 4) count("req_smp_cells_min_k");
   if (c.merge) count("req_smp_cells_merged");
+  if (c.merge == 3) count("req_smp_cells_merge_into_fresh_then_stream");
   count(std::string("req_smp_cells_") + c08::order_name(c.order));
   count("req_smp_pairs", pairs);
   count("req_smp_pairs_near_accurate_end", near_pairs);
@@ -286,6 +290,9 @@ static std::vector<c08::Cell> cells(bool T) {
     v.push_back(c08::Cell{k + 1000 * hra, n, order, merge, tr});
   v.push_back(c08::Cell{1012, 10000, 3, 0, tr});
   v.push_back(c08::Cell{12, 10000, 3, 1, tr});
+  // an older sketch merged into a fresh one, then a long stream (section growth after a merge must keep up); k >= 6
+  v.push_back(c08::Cell{1012, T ? 1050000 : 630000, 1, 3, T ? 60 : 14});
+  v.push_back(c08::Cell{20, T ? 1050000 : 420000, 1, 3, T ? 60 : 14});
   // smallest k
   v.push_back(c08::Cell{1004, 10000, 1, 0, tr});
   v.push_back(c08::Cell{4, 10000, 1, 1, tr});
